@@ -322,35 +322,45 @@ type obs struct {
 	realm map[string]realmObs
 	bal   map[crypto.Address]std.Coins
 	price string
+	maxN  map[string]uint64 // per realm: largest object counter seen so far on this branch
 }
 
-func observe(c *chainx.Chain) obs {
-	o := obs{realm: map[string]realmObs{}}
-	main := c.Items("main", "/pv/")
-	acc := c.Items("main", "/a/")
-	for k, v := range c.Items("main", "/b/") {
-		acc[k] = v
+// observe reads everything with direct key reads (an iterator on the memdb-backed stores costs O(whole DB)):
+// objects oid:<pkgid>:1..N where N is the largest object counter the realm has ever shown on this branch (+2), the
+// parameter names the menu uses, the byte counter, the realm record, the balances of the keys and deposit addresses.
+var paramNames = []string{"k", "l"}
+
+func observe(c *chainx.Chain, prev *obs) obs {
+	o := obs{realm: map[string]realmObs{}, bal: map[crypto.Address]std.Coins{}, maxN: map[string]uint64{}}
+	for _, k := range keys {
+		o.bal[k.Addr] = c.BalanceOf(k.Addr)
 	}
-	o.bal = chainx.Balances(acc)
 	for _, p := range realms {
-		items := c.Items("base", chainx.RealmOIDPrefix(p))
-		ro := realmObs{rec: chainx.DecodeRealm(p, items)}
-		ro.objBytes, ro.nObj = chainx.ObjectBytes(p, items)
-		// params bytes, re-implemented: every key "vm:<R>:<name>" (name without ':') costs len(key)+len(value)
-		pref := "/pv/vm:" + p + ":"
-		for k, v := range main {
-			if strings.HasPrefix(k, pref) && !strings.Contains(k[len(pref):], ":") {
-				ro.parBytes += int64(len(k)-len("/pv/")) + int64(len(v))
+		var mx uint64
+		if prev != nil {
+			mx = prev.maxN[p]
+		}
+		var ro realmObs
+		ro.rec, ro.objBytes, ro.nObj = c.RealmScan(p, mx)
+		if ro.rec.Time > mx {
+			mx = ro.rec.Time
+		}
+		o.maxN[p] = mx
+		// params bytes, re-implemented: every key "vm:<R>:<name>" costs len(key)+len(value)
+		for _, n := range paramNames {
+			k := "vm:" + p + ":" + n
+			if v, ok := c.ReadKey("main", "/pv/"+k); ok {
+				ro.parBytes += int64(len(k)) + int64(len(v))
 				ro.nPar++
 			}
 		}
-		if mv, ok := main["/pv/_realmmeta_"+p]; ok && len(mv) == 8 {
+		if mv, ok := c.ReadKey("main", "/pv/_realmmeta_"+p); ok && len(mv) == 8 {
 			ro.meta, ro.hasMeta = int64(binary.BigEndian.Uint64([]byte(mv))), true
 		}
-		ro.depositBal = chainx.Amount(o.bal[gnolang.DeriveStorageDepositCryptoAddr(p)], "ugnot")
+		ro.depositBal = chainx.Amount(c.BalanceOf(gnolang.DeriveStorageDepositCryptoAddr(p)), "ugnot")
 		o.realm[p] = ro
 	}
-	o.price = main["/pv/vm:p:storage_price"]
+	o.price, _ = c.ReadKey("main", "/pv/vm:p:storage_price")
 	return o
 }
 
@@ -438,7 +448,7 @@ func step(c *chainx.Chain, commit bool, m model, prev obs, oi int) (obs, model, 
 	}
 	nTx.Add(1)
 	r.Eval()
-	cur := observe(c)
+	cur := observe(c, &prev)
 	if _, loaded := stateSet.LoadOrStore(cur.stateKey(), true); !loaded {
 		nStates.Add(1)
 	}
@@ -588,7 +598,7 @@ func replay(g genesis, h []int) (int, *finding) {
 	if g.withZ {
 		m.zGen = 1
 	}
-	prev := observe(c)
+	prev := observe(c, nil)
 	if f := checkStatic(&m, prev); f != nil {
 		f.key += " @ genesis"
 		return -1, f
@@ -637,8 +647,9 @@ type dfsCtx struct {
 var suspects sync.Map // history string -> true (findings of DFS mode, re-validated by replay before being reported)
 
 type suspect struct {
-	g genesis
-	h []int
+	g   genesis
+	h   []int
+	key string
 }
 
 func (d *dfsCtx) dfs(h []int, m model, prev obs) {
@@ -653,7 +664,7 @@ func (d *dfsCtx) dfs(h []int, m model, prev obs) {
 		cur, m2, _, f := step(d.c, false, m, prev, oi)
 		h2 := append(append([]int{}, h...), oi)
 		if f != nil {
-			suspects.Store(fmt.Sprint(d.g, h2), suspect{d.g, h2})
+			suspects.Store(fmt.Sprint(d.g, h2), suspect{d.g, h2, f.key + menu[oi].name})
 		} else {
 			d.dfs(h2, m2, cur)
 		}
@@ -709,7 +720,7 @@ func main() {
 			t0 := time.Now()
 			c := newChain(true, true)
 			t1 := time.Now()
-			o := observe(c)
+			o := observe(c, nil)
 			t2 := time.Now()
 			c.BeginBlock()
 			pop := c.Push()
@@ -753,10 +764,11 @@ func main() {
 	if r.Thorough() {
 		dfsDepth, replayLen = 4, 3
 	}
+	_ = all
 
 	// (1) replay mode (fresh chain per history, one tx per block, state read after Commit): every history of <= replayLen
 	//     txs over the deploy theme, from the genesis without yr/zr
-	deployTheme := idx("deployY", "deploy/redeploy-private-Z", "z.add", "y.growForeign2")
+	deployTheme := idx("deployY", "deploy/redeploy-private-Z", "z.add")
 	if r.Thorough() {
 		deployTheme = idx("deployY", "deploy/redeploy-private-Z", "z.add", "y.growForeign2", "price*2", "growX3", "shrinkX2")
 	}
@@ -765,6 +777,12 @@ func main() {
 		h []int
 	}
 	var rjobs []rjob
+	if r.Quick() {
+		for _, h := range [][]string{{"deploy/redeploy-private-Z", "deploy/redeploy-private-Z"}, {"deploy/redeploy-private-Z", "z.add"}, {"deployY", "y.growForeign2"}, {"deployY", "deployY"}, {"growX3", "shrinkX2"}} {
+			rjobs = append(rjobs, rjob{genesis{}, idx(h...)})
+		}
+		replayLen = 0
+	}
 	for d := 1; d <= replayLen; d++ {
 		for _, h := range seqs(deployTheme, d) {
 			if d == replayLen || hasDeploy(h) { // shorter non-deploy histories are prefixes of the longer ones
@@ -795,20 +813,55 @@ func main() {
 		ops    []int
 		prefix []int
 		need   bool
+		depth  int
 	}
 	var djobs []djob
-	for _, p := range seqs(nonDeploy, 2) {
-		djobs = append(djobs, djob{genesis{true, true}, nonDeploy, p, false})
+	type theme struct {
+		name string
+		ops  []int
+	}
+	themes := []theme{
+		{"growth+price", idx("growX3", "shrinkX2", "freeX", "growX3-limit1ugnot", "shrinkX1-byB", "runB-growX2", "price*2", "price/2", "x.price*2-then-grow-same-msg", "tx[price*2 ; growX3]")},
+		{"foreign-owned objects", idx("growX3", "freeX", "x.replacePub", "y.growForeign2", "y.attachForeign", "y.detachForeign", "y.hold", "y.drop", "y.cutForeign", "y.growX-shrinkOwn", "y.shrinkBoth", "y.growOwn2", "y.growOwn-xPanics-recovered")},
+		{"params", idx("param.setStr-long", "param.setStr-short", "param.setBytes-empty", "param.setBytes3", "param.delete", "param.addStrings", "param.remStrings", "growX3", "shrinkX2", "price*2", "z.add")},
+	}
+	seenJob := map[string]bool{}
+	addJob := func(ops, prefix []int, depth int) {
+		if k := fmt.Sprint(prefix, depth >= dfsDepth); !seenJob[k] {
+			seenJob[k] = true
+			djobs = append(djobs, djob{genesis{true, true}, ops, prefix, false, depth})
+		}
+	}
+	if r.Quick() {
+		// quick: every history of <=2 txs over the whole non-deploy menu, every history of <=3 txs inside each theme
+		for _, p := range seqs(nonDeploy, 2) {
+			addJob(nonDeploy, p, 2)
+		}
+		for _, t := range themes {
+			for _, p := range seqs(t.ops, 2) {
+				addJob(t.ops, p, 3)
+			}
+		}
+	} else {
+		// thorough: every history of <=3 txs over the whole non-deploy menu, every history of <=4 txs inside each theme
+		for _, p := range seqs(nonDeploy, 2) {
+			addJob(nonDeploy, p, 3)
+		}
+		for _, t := range themes {
+			for _, p := range seqs(t.ops, 2) {
+				addJob(t.ops, p, 4)
+			}
+		}
 	}
 	deployMenu := idx("deployY", "deploy/redeploy-private-Z", "z.add", "y.growForeign2", "y.hold", "y.drop", "y.growOwn2", "x.replacePub", "growX3", "shrinkX2", "price*2", "param.setStr-long")
 	for _, p := range seqs(deployMenu, 2) {
-		djobs = append(djobs, djob{genesis{}, deployMenu, p, true})
+		djobs = append(djobs, djob{genesis{}, deployMenu, p, true, 3})
 	}
 	pools := map[genesis]chan *chainx.Chain{{true, true}: make(chan *chainx.Chain, 64), {}: make(chan *chainx.Chain, 64)}
 	warm.BeginBlock()
 	pools[genesis{true, true}] <- warm
 	created := map[genesis]*atomic.Int64{{true, true}: new(atomic.Int64), {}: new(atomic.Int64)}
-	maxChains := map[genesis]int64{{true, true}: 9, {}: 5}
+	maxChains := map[genesis]int64{{true, true}: 5, {}: 2}
 	var ddone atomic.Int64
 	r.ParFor(len(djobs), func(i int) {
 		j := djobs[i]
@@ -831,20 +884,20 @@ func main() {
 		if j.g.withZ {
 			m.zGen = 1
 		}
-		prev := observe(c)
+		prev := observe(c, nil)
 		h := []int{}
 		for _, oi := range j.prefix {
 			var f *finding
 			prev, m, _, f = step(c, false, m, prev, oi)
 			h = append(h, oi)
 			if f != nil {
-				suspects.Store(fmt.Sprint(j.g, h), suspect{j.g, append([]int{}, h...)})
+				suspects.Store(fmt.Sprint(j.g, h), suspect{j.g, append([]int{}, h...), f.key + menu[oi].name})
 				ddone.Add(1)
 				return
 			}
 		}
-		(&dfsCtx{c: c, g: j.g, ops: j.ops, depth: dfsDepth, needDeploy: j.need}).dfs(h, m, prev)
-		r.Distinct("dfs" + fmt.Sprint(j.g, j.prefix))
+		(&dfsCtx{c: c, g: j.g, ops: j.ops, depth: j.depth, needDeploy: j.need}).dfs(h, m, prev)
+		r.Distinct("dfs" + fmt.Sprint(j.g, j.prefix, j.depth, len(j.ops)))
 		ddone.Add(1)
 	})
 	tDFS := time.Since(t00) - tReplay
@@ -857,10 +910,12 @@ func main() {
 		}
 		return fmt.Sprint(sus[i].h) < fmt.Sprint(sus[j].h)
 	})
-	if len(sus) > 40 {
-		sus = sus[:40]
-	}
+	seenKey := map[string]bool{}
 	for _, s := range sus {
+		if seenKey[s.key] || len(seenKey) >= 12 { // the shortest history of each distinct finding
+			continue
+		}
+		seenKey[s.key] = true
 		at, f := replay(s.g, s.h)
 		if f == nil {
 			r.HarnessError("finding of DFS (rollback) mode not reproduced with real commits: %s", hname(s.h))
@@ -878,6 +933,10 @@ func main() {
 	}
 	fmt.Printf("phases: replay %.1fs (%d chains) dfs %.1fs revalidate %.1fs\n", tReplay.Seconds(), len(rjobs), tDFS.Seconds(), (time.Since(t00) - tReplay - tDFS).Seconds())
 	exh := rdone.Load() == int64(len(rjobs)) && ddone.Load() == int64(len(djobs))
-	r.Finish(fmt.Sprintf("DFS (open block, snapshot/rollback): every history of <=%d txs over the %d non-deploy ops from the genesis with 4 realms, and every history of <=%d txs over a %d-op deploy menu containing a deployment from the genesis with 2 realms; replay (fresh chain, commit per tx): every history of <=%d txs over a 4-op (thorough 7-op) deploy theme; invariants I1-I9 re-derived from raw store bytes after every tx; distinct = completed replay histories + DFS subtrees", dfsDepth, len(nonDeploy), dfsDepth, len(deployMenu), replayLen),
-		exh, map[string]any{"states": nStates.Load(), "transitions": nTx.Load(), "traces_validated_against_impl": nTx.Load(), "replay_histories": len(rjobs), "dfs_subtrees": len(djobs), "dfs_depth": dfsDepth, "menu": len(menu)})
+	scope := "every history of <=2 txs over the %d non-deploy ops and of <=3 txs inside each of 3 themed sub-menus (growth+price 10 ops, foreign-owned objects 13 ops, params 11 ops)"
+	if r.Thorough() {
+		scope = "every history of <=3 txs over the %d non-deploy ops and of <=4 txs inside each of 3 themed sub-menus (10/13/11 ops)"
+	}
+	r.Finish(fmt.Sprintf("DFS (open block, snapshot/rollback) from the genesis with 4 realms: "+scope+"; from the genesis with 2 realms: every history of <=3 txs over a %d-op deploy menu containing a deployment; replay (fresh chain, commit per tx): %d histories; invariants I1-I9 re-derived from raw store bytes after every tx; distinct = completed replay histories + DFS subtrees", len(nonDeploy), len(deployMenu), len(rjobs)),
+		exh, map[string]any{"states": nStates.Load(), "transitions": nTx.Load(), "traces_validated_against_impl": nTx.Load(), "replay_histories": len(rjobs), "dfs_subtrees": len(djobs), "menu": len(menu)})
 }
